@@ -236,7 +236,15 @@ class Maker:
             base = self.make(sh.k["children"], name + ".nchildren", idx) if "children" in sh.k else 0
             if isinstance(base, Sym):
                 self.side.append(base.t >= 0)
-            return ip.B.ElemV(sh.a[0], dict(attrib), base)
+            el = ip.B.ElemV(sh.a[0], dict(attrib), base)
+            # kids=[shape, ...]: the element's children, in document order
+            for i, cs in enumerate(sh.k.get("kids", ())):
+                ch = self.make(cs, f"{name}.kid{i}", idx)
+                ch = self.make(ch, f"{name}.kid{i}", idx)  # shapes inside Const templates
+                el.children.append(ch)
+                if isinstance(ch, ip.B.ElemV):
+                    ch.parent = el
+            return el
         if k == "assoc":
             # a dict with the given (key shape, value shape) entries; keys pairwise distinct
             items = [(self.make(ks, f"{name}.k{i}", idx), self.make(vs, f"{name}.v{i}", idx)) for i, (ks, vs) in enumerate(sh.a)]
